@@ -642,12 +642,77 @@ Lemma wit39_proportion :
   shares repaired 10 10000000 [Org 4 1 1499999; Org 3 0 9500000] = [1363636; 8636364].
 Proof. vm_compute. split; reflexivity. Qed.
 
+(* ---- F15 repaired: rounding the shares up ------------------------------------------------------------- *)
+(* nonlinear facts kept out of lia's way *)
+Lemma quot_floor_bounds x y : 0 <= x -> 0 < y -> Z.quot x y * y <= x < Z.quot x y * y + y.
+Proof.
+  intros Hx Hy. rewrite Z.quot_div_nonneg by lia.
+  pose proof (Z.div_mod x y ltac:(lia)) as H. pose proof (Z.mod_pos_bound x y Hy) as Hm. lia.
+Qed.
+
+Lemma trunc_window k c : 0 <= k -> k * P <= c < k * P + P -> truncate_int c = k.
+Proof.
+  intros Hk Hc. unfold truncate_int. rewrite Z.quot_div_nonneg by (unfold P in *; lia).
+  symmetry. apply Z.div_unique with (r := c - k * P); unfold P in *; lia.
+Qed.
+
+(* what [x] raw shares-times-tokens are worth, as a whole number of tokens: k, whenever x*P*P/S lies in [k*P*P, k*P*P + P) *)
+Lemma worth_window S x k :
+  0 < S -> 0 <= k -> S * k <= x -> x * P < S * k * P + S ->
+  truncate_int (dec_quo x S) = k.
+Proof.
+  intros HS Hk Hlo Hhi. unfold dec_quo.
+  assert (Hx : 0 <= x) by nia.
+  pose proof (quot_floor_bounds (x * P * P) S ltac:(unfold P; nia) HS) as [Hq1 Hq2].
+  set (y := Z.quot (x * P * P) S) in *.
+  assert (Hy1 : k * P * P <= y).
+  { assert (S * (k * P * P) <= x * P * P) by (unfold P; nia).
+    assert (S * (k * P * P) < y * S + S) by lia.
+    assert (S * (k * P * P) < S * (y + 1)) by lia. apply Z.mul_lt_mono_pos_l in H1; lia. }
+  assert (Hy2 : y < k * P * P + P).
+  { assert (y * S <= x * P * P) by lia.
+    assert (x * P * P < (S * k * P + S) * P) by (apply Z.mul_lt_mono_pos_r; [reflexivity|exact Hhi]).
+    assert (y * S < S * (k * P * P + P)) by lia.
+    rewrite (Z.mul_comm y S) in H1. apply Z.mul_lt_mono_pos_l in H1; lia. }
+  pose proof (chop_round_err y) as He.
+  apply trunc_window; [exact Hk|]. unfold P in *. lia.
+Qed.
+
+(* F15 repaired: the smallest number of shares that is worth the whole amount is worth exactly the amount, for every
+   exchange rate of at most one token per share *)
+Lemma shares_up_worth_amount v a s t :
+  0 < v_tokens v -> v_tokens v * P <= v_shares v -> 0 <= a ->
+  shares_from_tokens v a = Some s ->
+  tokens_from_shares v (if s * v_tokens v <? v_shares v * a then s + 1 else s) = Some t ->
+  truncate_int t = a.
+Proof.
+  intros HT Hrate Ha Hs Ht. unfold shares_from_tokens in Hs. unfold tokens_from_shares in Ht.
+  assert (HS : 0 < v_shares v) by (unfold P in *; lia).
+  destruct (v_tokens v =? 0) eqn:E0; [apply Z.eqb_eq in E0; lia|].
+  destruct (v_shares v =? 0) eqn:E1; [apply Z.eqb_eq in E1; lia|].
+  injection Hs as <-. injection Ht as <-.
+  set (S := v_shares v) in *. set (T := v_tokens v) in *.
+  pose proof (quot_floor_bounds (S * a) T ltac:(nia) HT) as [Hq1 Hq2].
+  set (s := Z.quot (S * a) T) in *.
+  apply worth_window; try assumption.
+  - destruct (s * T <? S * a) eqn:E; [apply Z.ltb_lt in E | apply Z.ltb_ge in E]; lia.
+  - destruct (s * T <? S * a) eqn:E; [apply Z.ltb_lt in E | apply Z.ltb_ge in E].
+    + assert ((s + 1) * T <= S * a + T - 1) by lia.
+      assert ((s + 1) * T * P <= (S * a + T - 1) * P) by (apply Z.mul_le_mono_nonneg_r; [unfold P; lia|lia]).
+      unfold P in *. lia.
+    + assert (s * T = S * a) by lia. rewrite H. unfold P in *. lia.
+Qed.
+
 (* F15: exchange rate 2/3 after an infraction slash; 100000 loya asked, 99999 arrive *)
 Definition wit15 : stk := Stk [Val 0 6666673 (sh 10000000 0) 3] [Dlg 3 0 (sh 10000000 0)] [] 6666673 0 0.
-Lemma wit15_both :
+Lemma wit15_found :
   exists st' rec, escrow as_found [] wit15 [Org 3 0 6000000] 6 100000 = Some (st', rec) /\
-                  escrow repaired [] wit15 [Org 3 0 6000000] 6 100000 = Some (st', rec) /\
                   s_escrow st' = 99999 /\ sum_amt rec = 100000.
+Proof. eexists. eexists. split; [vm_compute; reflexivity|]. vm_compute. repeat split; reflexivity. Qed.
+Lemma wit15_repaired :
+  exists st' rec, escrow repaired [] wit15 [Org 3 0 6000000] 6 100000 = Some (st', rec) /\
+                  escrow current [] wit15 [Org 3 0 6000000] 6 100000 = Some (st', rec) /\
+                  s_escrow st' = 100000 /\ sum_amt rec = 100000.
 Proof. eexists. eexists. split; [vm_compute; reflexivity|]. vm_compute. repeat split; reflexivity. Qed.
 
 (* F18: the report was submitted with value 1000 and power 10; the dispute states value 77 and power 30 *)
